@@ -243,15 +243,29 @@ def gen_spec(r: apigen.Rng, *, t3=False, ext=None, nested_parent_hazard=None):
             svc["methods"].append(meth)
         lib["services"].append(svc)
     if ext:
+        # The operation service carries the polling method next to RPCs of its own (Wait, Delete) which a user may
+        # list as well; DECLARATION ORDER is free: the operation service may come before, between or after the
+        # services whose RPCs start operations, its polling method is not always its first method, one operation
+        # service usually serves several starting RPCs, and (T2 only) a starting RPC may live in the operation
+        # service itself.
         ops = {"name": "RegionOperations", "methods": []}
         lib["messages"].append(_msg("GetRegionOperationRequest", [{"name": "operation", "t": "string", "opresp": 1}, {"name": "zone", "t": "string"}]))
         lib["messages"].append(_msg("WaitOperationRequest", [{"name": "operation", "t": "string"}, {"name": "hint", "msg": "." + r.pick(data_top)}]))
-        ops["methods"].append({"name": "Get", "input": f".{PKG}.GetRegionOperationRequest", "output": f".{PKG}.Operation", "polling": True})
-        ops["methods"].append({"name": "Wait", "input": f".{PKG}.WaitOperationRequest", "output": f".{PKG}.Operation"})
-        lib["services"].append(ops)
-        starter = _msg("InsertThingRequest", [{"name": "zone", "t": "string", "opreq": "zone"}, {"name": "thing", "msg": "." + r.pick(data_top)}])
-        lib["messages"].append(starter)
-        r.pick(lib["services"][:-1])["methods"].append({"name": "InsertThing", "input": f".{PKG}.InsertThingRequest", "output": f".{PKG}.Operation", "opservice": "RegionOperations"})
+        om = [{"name": "Get", "input": f".{PKG}.GetRegionOperationRequest", "output": f".{PKG}.Operation", "polling": True},
+              {"name": "Wait", "input": f".{PKG}.WaitOperationRequest", "output": f".{PKG}.Operation"}]
+        if r.maybe(0.5):
+            lib["messages"].append(_msg("DeleteRegionOperationRequest", [{"name": "operation", "t": "string"}, {"name": "zone", "t": "string"}]))
+            lib["messages"].append(_msg("DeleteRegionOperationResponse"))
+            om.append({"name": "Delete", "input": f".{PKG}.DeleteRegionOperationRequest", "output": f".{PKG}.DeleteRegionOperationResponse"})
+        r.shuffle(om)
+        ops["methods"] = om
+        hosts = list(lib["services"])
+        lib["services"].insert(r.randint(0, len(lib["services"])), ops)
+        for sn in ["InsertThing", "PatchThing"][:1 + int(r.maybe(0.4))]:
+            lib["messages"].append(_msg(sn + "Request", [{"name": "zone", "t": "string", "opreq": "zone"}, {"name": "thing", "msg": "." + r.pick(data_top)}]))
+            host = ops if ((not t3) and r.maybe(0.15)) else r.pick(hosts)
+            host["methods"].insert(r.randint(0, len(host["methods"])),
+                                   {"name": sn, "input": f".{PKG}.{sn}Request", "output": f".{PKG}.Operation", "opservice": "RegionOperations"})
     # shared may not reference lib or the sub-package file (no import cycle / not imported): drop such fields
     lib_names = set()
     for lf in (lib, subf):
@@ -271,11 +285,48 @@ def gen_spec(r: apigen.Rng, *, t3=False, ext=None, nested_parent_hazard=None):
     return spec
 
 
+def ext_roles(spec):
+    """(starting RPCs, polling RPCs, the other RPCs of operation services) of the target package, declaration order"""
+    starters, polling, ops_other = [], [], []
+    for f in spec["files"]:
+        if f["package"] != PKG:
+            continue
+        opsvc = {m["opservice"] for s in f["services"] for m in s["methods"] if m.get("opservice")}
+        for s in f["services"]:
+            for m in s["methods"]:
+                fq = f"{PKG}.{s['name']}.{m['name']}"
+                if m.get("opservice"):
+                    starters.append(fq)
+                elif m.get("polling"):
+                    polling.append(fq)
+                elif s["name"] in opsvc:
+                    ops_other.append(fq)
+    return starters, polling, ops_other
+
+
+def ext_subset(r, spec):
+    """a subset in which the polling method is NEEDED but not listed, next to listed RPCs of the operation service
+    itself (so that the operation service is on the list for a reason of its own); None without extended operations"""
+    starters, polling, ops_other = ext_roles(spec)
+    if not starters or not ops_other:
+        return None
+    sub = set(r.sample(starters, r.randint(1, len(starters)))) | set(r.sample(ops_other, r.randint(1, len(ops_other))))
+    rest = [m for m in all_methods(spec, PKG) if m not in sub and m not in polling]
+    if rest and r.maybe(0.4):
+        sub |= set(r.sample(rest, r.randint(1, min(2, len(rest)))))
+    return sorted(sub)
+
+
 def subsets(r, spec, n):
     """n further (listed, internal) choices for the same API (incl. single-method and all-but-one subsets)"""
     meths = all_methods(spec, PKG)
     out = []
     for i in range(n):
+        if i == 0 and ext_roles(spec)[0]:
+            sub = ext_subset(r, spec)
+            if sub:
+                out.append((sub, r.maybe(0.3)))
+                continue
         c = r.random()
         if c < 0.3:
             sub = [r.pick(meths)]
@@ -698,6 +749,33 @@ def features(spec, d, listed, req_types):
                     if m.get("ss"): fs.add("stream-kept")
                 elif m.get("lro"):
                     fs.add("lro-dropped")
+    starters, polling, ops_other = ext_roles(spec)
+    kept_starters = [m for m in starters if m in listed]
+    if kept_starters:
+        order = all_methods(spec, PKG)
+        svc_of = lambda fq: fq.rsplit(".", 1)[0]
+        svc_order = []
+        for m in order:
+            if svc_of(m) not in svc_order:
+                svc_order.append(svc_of(m))
+        if any(p in listed for p in polling):
+            fs.add("ext:polling-listed-too")
+        else:
+            fs.add("ext:polling-needed-not-listed")
+            if any(m in listed for m in ops_other):
+                fs.add("ext:operation-service-rpc-listed-polling-not")
+        for p in polling:
+            for m in kept_starters:
+                if svc_of(m) == svc_of(p):
+                    fs.add("ext:starter-in-operation-service")
+                elif svc_order.index(svc_of(p)) < svc_order.index(svc_of(m)):
+                    fs.add("ext:operation-service-declared-before-starter")
+                else:
+                    fs.add("ext:operation-service-declared-after-starter")
+            if order.index(p) > min(order.index(m) for m in order if svc_of(m) == svc_of(p)):
+                fs.add("ext:polling-not-first-method")
+        if len(kept_starters) > 1:
+            fs.add("ext:several-starters-one-operation-service")
     for t in req_types:
         if t in d.msgs:
             if d.parent_of.get(t): fs.add("nested-kept")
@@ -1393,8 +1471,11 @@ def all_subsets(meths):
 def run(ctx):
     ctx.rule = ("APIs of the 'selective' profile (2-4 proto files of the target package + dependency packages; shared, nested, "
                 "recursive and map types; message- and file-level resources with type/child_type references; unary, paged, "
-                "LRO, streaming and extended-operation RPCs; services that become empty; files that drop out) x subsets of "
-                "RPCs (random, singletons, all-but-one, all; every subset for small APIs in the thorough tier) x "
+                "LRO, streaming and extended-operation RPCs, the operation service declared before, between or after the "
+                "services that start operations, its polling method at any position, 1-2 starting RPCs per operation service; "
+                "services that become empty; files that drop out) x subsets of "
+                "RPCs (random, singletons, all-but-one, all, starting RPC + non-polling RPCs of the operation service; "
+                "every subset for small APIs in the thorough tier) x "
                 "generate_omitted_as_internal in {false,true}; plus settings probes (unknown method/service, dependency method, "
                 "other version, duplicate version, empty list). distinct by (API, subset, mode) / (API, settings); every "
                 "generated case is non-trivial (selective settings present)")
@@ -1444,17 +1525,19 @@ def run(ctx):
         spec = gen_spec(r, t3=True, ext=True)
         spec["rest"] = True
         meths = all_methods(spec, PKG)
-        starter = [m for m in meths if m.endswith(".InsertThing")]
+        starter, polling, ops_other = ext_roles(spec)
         others = [m for m in meths if m not in starter]
-        variants = [(sorted(starter + r.sample(others, min(1, len(others)))), False), (sorted(starter), True),
-                    (sorted(r.sample(others, min(2, len(others)))), False)]
+        # starting RPC(s) next to RPCs of the operation service, the polling method needed but not listed;
+        # a starting RPC plus anything; internal mode; no starting RPC at all
+        variants = [(ext_subset(r, spec), False), (sorted(starter[:1] + r.sample(others, min(1, len(others)))), False),
+                    (sorted(starter), True), (sorted(r.sample(others, min(2, len(others)))), False)]
         t3_api(ctx, r, spec, 0, f"t3ext-{a}", variants=variants)
 
 
 def search(ctx):
     r = ctx.rng("search")
     for a in range(30):
-        spec = gen_spec(r)
+        spec = gen_spec(r, ext=True if a % 3 == 1 else None)
         t2_api(ctx, r, spec, 3, f"search-{a}")
         if a % 3 == 0:
             validation_cases(ctx, r, spec)
